@@ -64,3 +64,24 @@ Proof.
   split; [exact (path_segments_session_exact_file dbg u ops u' W Hsl Hf HP Hok Hu H) | exact (session_text_ok ops (path_bytes u) HP)].
 Qed.
 End FileCanonPremises.
+
+(* non-vacuity on the example host functions of C02_AuthMain: file://h.example/a/b%20c?q#f is a canonical file record;
+   pop, pop, pop (down to the root path), push("C:") would be rewritten - push("d e") is not *)
+From Coq Require Import String.
+From RU Require Import Proofs.C02_AuthMain.
+
+Definition fc_url : url := file_curl ex_hd (Some (HDomain (B "h.example"))) (path_text [B "a"] (B "b%20c")) (Some (B "q")) (Some (B "f")).
+Definition fc_ops : list psm_op := [PPop; PPop; PPop; PPush (B "d e"); PPush (B "C|")].
+
+Example file_canon_session_example :
+  HostRT ex_hp ex_hp ex_hd /\ FileCanon ex_hp ex_hd fc_url /\ ser fc_url = B "file://h.example/a/b%20c?q#f"
+  /\ file_session_ok (path_bytes fc_url) fc_ops = true /\ Forall psm_op_usv fc_ops
+  /\ session_text STFile (path_bytes fc_url) fc_ops = B "/d%20e/C|"
+  /\ session_text STFile (path_bytes fc_url) [PPop; PPop; PPop] = B "/"
+  /\ path_segments_session true fc_url fc_ops = Some (with_path fc_url (B "/d%20e/C|"), SOk)
+  /\ ser (with_path fc_url (B "/d%20e/C|")) = B "file://h.example/d%20e/C|?q#f".
+Proof.
+  split; [exact (proj1 ex_host_RT)|]. split; [constructor; exact (proj1 file_ok_example)|].
+  split; [vm_compute; reflexivity|]. split; [vm_compute; reflexivity|].
+  split; [repeat constructor; unfold is_usv; lia|]. repeat split; vm_compute; reflexivity.
+Qed.
